@@ -1420,6 +1420,196 @@ static void part_e(void) {
 	}
 }
 
+/* ------------------------------------------------------------------ part f: edits of a TLV tree (tree codec) */
+/* A parent with up to three leaf children is parsed from its encoding (copying parser / parser that adopts the caller's
+ * buffer) or built with the API; then every sequence of edit operations of the bound is applied - expand the payload into
+ * the child list, collapse it into raw bytes, set the raw value of the parent or of a child, append a child, replace a
+ * child - and after every operation the serialization, the raw payload and a clone have to be those of the tree the
+ * operations describe. An operation may be refused (the value does not fit the element's own buffer); then the tree has
+ * to be what it was before. */
+typedef struct { unsigned ptag; int pfl; int is_raw; size_t rawlen; unsigned rawseed; echild ch[E_MAXCH]; int n; } ftree;
+static const size_t F_LENS[3] = {0, 3, 300};
+#define F_NOPS 32
+static rnode *f_ref(const ftree *t) {
+	rnode *p;
+	int i;
+	if (t->is_raw) return leafx(t->ptag, t->pfl, t->rawlen, t->rawseed);
+	if (t->n == 0) return leafx(t->ptag, t->pfl, 0, 0);
+	p = nestx(t->ptag, t->pfl);
+	for (i = 0; i < t->n; i++) rt_add(p, leafx(t->ch[i].tag, t->ch[i].fl, t->ch[i].len, t->ch[i].seed));
+	return p;
+}
+static void f_opname(int op, char *o, size_t cap) {
+	if (op == 0) snprintf(o, cap, "expand");
+	else if (op == 1) snprintf(o, cap, "collapse");
+	else if (op < 5) snprintf(o, cap, "setraw.%zu", F_LENS[op - 2]);
+	else if (op < 14) snprintf(o, cap, "child%d.setraw.%zu", (op - 5) / 3, F_LENS[(op - 5) % 3]);
+	else if (op < 20) snprintf(o, cap, "append%x.%zu", E_TAGS[(op - 14) / 2], F_LENS[1 + (op - 14) % 2]);
+	else snprintf(o, cap, "child%d.replace%x.%zu", (op - 20) / 4, E_TAGS[((op - 20) % 4) / 2 * 2], F_LENS[1 + (op - 20) % 2]);
+}
+static KSI_TLV *f_child(KSI_TLV *root, int k) {
+	KSI_LIST(KSI_TLV) *l = NULL;
+	KSI_TLV *c = NULL;
+	if (KSI_TLV_getNestedList(root, &l) != KSI_OK || l == NULL) return NULL;
+	CALL();
+	if (KSI_TLVList_elementAt(l, (size_t)k, &c) != KSI_OK) return NULL;
+	return c;
+}
+static KSI_TLV *f_leaf(const echild *c) {
+	KSI_TLV *t = NULL;
+	if (KSI_TLV_new(ctx, c->tag, c->fl & 1, (c->fl >> 1) & 1, &t) != KSI_OK) vf_harness_error("part f: KSI_TLV_new");
+	if (KSI_TLV_setRawValue(t, rt_pat(c->seed), c->len) != KSI_OK) vf_harness_error("part f: leaf value");
+	CALL(); CALL();
+	return t;
+}
+static void f_check(KSI_TLV *root, const ftree *t, const char *what) {
+	vbuf enc, pl;
+	rnode *r = f_ref(t);
+	KSI_TLV *cl = NULL;
+	int res;
+	vb_init(&enc); vb_init(&pl);
+	rt_layout(r);
+	if (rt_encode(r, &enc, 1) != 0 || rt_encode(r, &pl, 0) != 0) vf_harness_error("part f: reference encoding");
+	tlv_serialize_expect(root, &enc, "tlv-edit-serialize", what);
+	res = KSI_TLV_clone(root, &cl);
+	CALL();
+	if (res != KSI_OK || cl == NULL) fail1("tlv-edit-clone", "%s: clone returned %x", what, res);
+	else tlv_serialize_expect(cl, &enc, "tlv-edit-clone", what);
+	KSI_TLV_free(cl);
+	vb_free(&enc); vb_free(&pl);
+}
+/* returns 0 applied / refused-and-unchanged, 1 not applicable, -1 reported */
+static int f_apply(KSI_TLV *root, ftree *t, int op, unsigned seed, const char *what) {
+	int res;
+	if (op == 0) {
+		KSI_LIST(KSI_TLV) *l = NULL;
+		if (t->is_raw) return 1;                       /* arbitrary raw bytes need not be a tiling of elements */
+		res = KSI_TLV_getNestedList(root, &l);
+		CALL();
+		if (res != KSI_OK) { fail1("tlv-edit-refused", "%s: expanding the payload returned %x", what, res); return -1; }
+		if ((int)KSI_TLVList_length(l) != t->n) { fail1("tlv-edit-children", "%s: %d children expected, the list has %d", what, t->n, (int)KSI_TLVList_length(l)); return -1; }
+		return 0;
+	}
+	if (op == 1) {
+		const unsigned char *p = NULL;
+		size_t n = 0;
+		vbuf pl;
+		rnode *r = f_ref(t);
+		res = KSI_TLV_getRawValue(root, &p, &n);
+		CALL();
+		if (res != KSI_OK) { fail1("tlv-edit-refused", "%s: KSI_TLV_getRawValue returned %x", what, res); return -1; }
+		vb_init(&pl);
+		rt_layout(r);
+		if (rt_encode(r, &pl, 0) != 0) vf_harness_error("part f: reference payload");
+		expect_bytes("tlv-edit-rawvalue", what, p, n, &pl);
+		vb_free(&pl);
+		return 0;
+	}
+	if (op < 5) {
+		size_t L = F_LENS[op - 2];
+		res = KSI_TLV_setRawValue(root, rt_pat(seed), L);
+		CALL();
+		if (res == KSI_OK) { t->is_raw = 1; t->rawlen = L; t->rawseed = seed; t->n = 0; OC(OC_OK); }
+		else OC(OC_REJECT);
+		return 0;
+	}
+	if (op < 14) {
+		int k = (op - 5) / 3;
+		size_t L = F_LENS[(op - 5) % 3];
+		KSI_TLV *c;
+		if (t->is_raw || k >= t->n) return 1;
+		c = f_child(root, k);
+		if (!c) { fail1("tlv-edit-children", "%s: child %d is not in the nested list", what, k); return -1; }
+		res = KSI_TLV_setRawValue(c, rt_pat(seed), L);
+		CALL();
+		if (res == KSI_OK) { t->ch[k].len = L; t->ch[k].seed = seed; OC(OC_OK); }
+		else OC(OC_REJECT);
+		return 0;
+	}
+	{
+		echild c;
+		KSI_TLV *ct;
+		int is_repl = op >= 20, k = is_repl ? (op - 20) / 4 : -1;
+		if (t->is_raw) return 1;
+		if (is_repl && k >= t->n) return 1;
+		if (!is_repl && t->n >= E_MAXCH) return 1;
+		c.tag = is_repl ? E_TAGS[((op - 20) % 4) / 2 * 2] : E_TAGS[(op - 14) / 2];
+		c.len = F_LENS[1 + (is_repl ? (op - 20) : (op - 14)) % 2];
+		c.fl = (int)(seed & 3); c.seed = seed;
+		ct = f_leaf(&c);
+		if (is_repl) {
+			KSI_TLV *old = f_child(root, k);
+			if (!old) { KSI_TLV_free(ct); fail1("tlv-edit-children", "%s: child %d is not in the nested list", what, k); return -1; }
+			res = KSI_TLV_replaceNestedTlv(root, old, ct);
+		} else {
+			/* the caller brings the payload into its expanded form first (appending to an element whose payload is held as raw
+			 * bytes starts a new child list: the API leaves that conversion to the caller) */
+			{ KSI_LIST(KSI_TLV) *l = NULL; KSI_TLV_getNestedList(root, &l); CALL(); }
+			res = KSI_TLV_appendNestedTlv(root, ct);
+		}
+		CALL();
+		if (res != KSI_OK) { KSI_TLV_free(ct); fail1("tlv-edit-refused", "%s: %s returned %x", what, is_repl ? "replace" : "append", res); return -1; }
+		if (is_repl) t->ch[k] = c; else t->ch[t->n++] = c;
+		OC(OC_OK);
+		return 0;
+	}
+}
+static void f_sequence(const ftree *t0, int origin, const int *ops, int nops) {
+	ftree t = *t0;
+	KSI_TLV *root = NULL;
+	vbuf enc;
+	unsigned char *own = NULL;
+	char what[220], nm[32];
+	int i, refused = 0, k = 0, res;
+	rnode *r = f_ref(&t);
+	vb_init(&enc);
+	rt_layout(r);
+	if (rt_encode(r, &enc, 1) != 0) vf_harness_error("part f: reference encoding of the start tree");
+	k += snprintf(what, sizeof what, "%s parent %x with %d children;", origin == 0 ? "parsed (copy)" : origin == 1 ? "parsed (adopted buffer)" : "built", t.ptag, t.n);
+	if (origin == 0) { res = KSI_TLV_parseBlob(ctx, enc.p, enc.n, &root); CALL(); }
+	else if (origin == 1) {
+		own = (unsigned char *)KSI_malloc(enc.n ? enc.n : 1);
+		if (!own) vf_harness_error("part f: KSI_malloc");
+		memcpy(own, enc.p, enc.n);
+		res = KSI_TLV_parseBlob2(ctx, own, enc.n, 1, &root); CALL();
+		if (res != KSI_OK) KSI_free(own);
+	} else { rt_bind(r, enc.p); root = build_tlv(r, &refused); res = root ? KSI_OK : refused; }
+	if (res != KSI_OK || root == NULL) { fail1("tlv-valid-rejected", "%s cannot be obtained (%x)", what, res); goto done; }
+	for (i = 0; i < nops; i++) {
+		int rc;
+		f_opname(ops[i], nm, sizeof nm);
+		if (k < (int)sizeof what - 40) k += snprintf(what + k, sizeof what - (size_t)k, " %s", nm);
+		rc = f_apply(root, &t, ops[i], (unsigned)(60 + 11 * i + ops[i]), what);
+		if (rc < 0) break;
+		if (rc == 0) f_check(root, &t, what);
+	}
+done:
+	KSI_TLV_free(root);
+	vb_free(&enc);
+	rt_reset();
+	g_trees++;
+}
+static void part_f(void) {
+	static const int START[][3] = {{-1, -1, -1}, {1, -1, -1}, {1, 5, -1}, {2, 4, 7}, {0, 8, -1}, {8, 8, -1}};
+	int nstart = (int)(sizeof START / sizeof *START), si, origin, o1, o2, o3, maxops = VF_THOROUGH ? 3 : 2;
+	for (si = 0; si < nstart; si++) for (origin = 0; origin < 3; origin++) for (o1 = 0; o1 < F_NOPS; o1++) {
+		ftree t;
+		int j, ops[3];
+		memset(&t, 0, sizeof t);
+		t.ptag = si & 1 ? 0x11 : 0x121; t.pfl = si & 3;
+		for (j = 0; j < 3 && START[si][j] >= 0; j++) { t.ch[t.n].tag = E_TAGS[START[si][j] / 3]; t.ch[t.n].len = F_LENS[START[si][j] % 3]; t.ch[t.n].fl = j & 3; t.ch[t.n].seed = (unsigned)(si * 7 + j); t.n++; }
+		if (!begin_case("f", "start%d:origin%d:op%d:len%d", si, origin, o1, maxops)) continue;
+		ops[0] = o1;
+		f_sequence(&t, origin, ops, 1);
+		for (o2 = 0; o2 < F_NOPS; o2++) {
+			ops[1] = o2;
+			f_sequence(&t, origin, ops, 2);
+			if (maxops >= 3) for (o3 = 0; o3 < F_NOPS; o3++) { ops[2] = o3; f_sequence(&t, origin, ops, 3); }
+		}
+		end_case();
+	}
+}
+
 static void run(void) {
 	ctx = ku_ctx();
 	part_a();
@@ -1433,6 +1623,7 @@ static void run(void) {
 	part_c();
 	part_d();
 	part_e();
+	part_f();
 	KSI_CTX_free(ctx);
 }
 
